@@ -192,7 +192,10 @@ def random_statement(rng, rec):
         s = ''.join(chr(base + (i % 20)) for i in range(n))
         return 'PRINT "%s"%s' % (s, rng.choice(['', '', ';']))
     if k < 0.40:
-        return 'PRINT STRING$(%d,%d)%s' % (rng.choice([1, w, 2 * w, 255]), rng.choice([32, 219, 65, 7, 13, 10, 12, 11, 28, 31]), rng.choice(['', ';']))
+        ch = rng.choice([32, 219, 65, 7, 13, 10, 12, 11, 28, 31])
+        # (a line end scrolls the whole window: keep the runs of those short, each scroll costs milliseconds)
+        n = rng.choice([1, 3, 30]) if ch in (13, 10, 31) else rng.choice([1, w, 2 * w, 255])
+        return 'PRINT STRING$(%d,%d)%s' % (n, ch, rng.choice(['', ';']))
     if k < 0.48:
         return rng.choice(['CLS', 'CLS', 'CLS 0', 'CLS 1', 'CLS 2'])
     if k < 0.58:
@@ -282,7 +285,7 @@ def run(ctx):
     # 2. code -> spec
     rec = Recorder(ctx)
     rng = ctx.rng
-    nhist = ctx.pick(16, 200)
+    nhist = ctx.pick(12, 200)
     adapters = list(ADAPTER_MODES)
     for hno in range(nhist):
         random_history(rec, rng, adapters[hno % len(adapters)], rng.randint(*ctx.pick((20, 55), (25, 70))))
